@@ -51,10 +51,11 @@ pub fn c16_purge(model: &mut PModel) {
 }
 
 // ---- C05: nondeterminism source, hash iteration feeding output, id from an enumerate index
-pub fn uuid_from_str(s: &str) -> u64 {
-    s.len() as u64
+pub struct Uuid(pub u64);
+pub fn uuid_from_str(s: &str) -> Uuid {
+    Uuid(s.len() as u64)
 }
-pub fn c05_ids(names: &[String]) -> Vec<u64> {
+pub fn c05_ids(names: &[String]) -> Vec<Uuid> {
     names.iter().enumerate().map(|(i, n)| uuid_from_str(&format!("{}-{}", i, n))).collect()
 }
 pub fn c05_root(names: &[String]) -> Vec<String> {
